@@ -289,6 +289,7 @@ func VerifRunLoopConsts() [][2]any {
 		{"rl_InternalError", int64(qerr.InternalError)},
 		{"rl_DefaultHandshakeIdleTimeout", int64(protocol.DefaultHandshakeIdleTimeout)},
 		{"rl_DefaultIdleTimeout", int64(protocol.DefaultIdleTimeout)},
+		{"rl_MinRemoteIdleTimeout", int64(protocol.MinRemoteIdleTimeout)},
 	}
 }
 
